@@ -248,13 +248,18 @@ def explore(sc, prop, tier, seed, budget, workers, extra_env=None):
                         except Exception:
                             continue
                         recs.append(r)
-                        last_run = r["run"]
+                        if not r.get("agg"):
+                            last_run = r["run"]
             if rc != 0:
                 err = open(w["err"]).read()
                 plan = None
                 if os.path.exists(w["cur"]):
                     try:
-                        plan = json.load(open(w["cur"]))
+                        # the worker keeps the index of the plan in progress; the plan is a pure function of it
+                        idx = int(json.loads(open(w["cur"]).readline())["run"])
+                        g = subprocess.run([sc.bin, "-test.run", "TestWorker", "-mode", "gen", "-prop", prop, "-tier", tier, "-seed", str(seed), "-from", str(idx)],
+                                           capture_output=True, text=True, env=worker_env(), timeout=120)
+                        plan = json.loads([l for l in g.stdout.splitlines() if l.startswith("{")][0])
                     except Exception:
                         plan = None
                 if plan is None:
@@ -404,13 +409,29 @@ def add(dst, src):
 
 
 def evidence(prop, tier, seed, recs, wall, sc, known_hits, new, extra):
-    runs = [r for r in recs if r.get("reason") not in ("harness",)]
+    aggs = [r for r in recs if r.get("agg")]
+    runs = [r for r in recs if not r.get("agg") and r.get("reason") not in ("harness",)]
     faults, yields, parks, probes, ops, locks = {}, {}, {}, {}, {}, {}
     sigs, nontriv, flavors, worlds = set(), set(), collections.Counter(), collections.Counter()
     states = 0
     vt = 0
     vmax = 0
     steps = 0
+    nagg = 0
+    for a in aggs:
+        # runs a worker summed up (nothing to report individually)
+        nagg += a["runs"]
+        add(faults, a.get("faults")); add(yields, a.get("yields")); add(parks, a.get("parks")); add(probes, a.get("probes")); add(ops, a.get("ops")); add(locks, a.get("lock_sites"))
+        sigs.update(a.get("sigs_nontrivial") or []); sigs.update(a.get("sigs_trivial") or [])
+        nontriv.update(a.get("sigs_nontrivial") or [])
+        for k, v in (a.get("flavors") or {}).items():
+            flavors[k] += v
+        for k, v in (a.get("worlds") or {}).items():
+            worlds[k or "srv"] += v
+        states += a.get("states", 0)
+        vt += a.get("virtual_ns", 0)
+        vmax = max(vmax, a.get("virtual_max", 0))
+        steps += a.get("steps", 0)
     for r in runs:
         add(faults, r.get("faults")); add(yields, r.get("yields")); add(parks, r.get("parks")); add(probes, r.get("probes")); add(ops, r.get("ops")); add(locks, r.get("lock_sites"))
         sigs.add(r.get("sig"))
@@ -426,14 +447,14 @@ def evidence(prop, tier, seed, recs, wall, sc, known_hits, new, extra):
     if not samples:
         samples = [r["plan"] for r in runs if r.get("plan")][:1]
     cov = {
-        "evaluations": len(runs),
+        "evaluations": len(runs) + nagg,
         "distinct_nontrivial": len(nontriv),
         "rule": extra.get("rule", "plans are generated by a splitmix64 stream from (VERIF_SEED, property, run index); a run is non-trivial when the system under test completed "
                 "at least 3 request/response exchanges or relayed data and the scheduler executed at least 10 events; distinct = distinct hash of the canonical event log "
                 "(scheduler decisions, deliveries, responses, callbacks with virtual times)"),
         "samples": samples,
-        "runs": len(runs),
-        "runs_per_hour": int(len(runs) / max(wall, 1e-3) * 3600),
+        "runs": len(runs) + nagg,
+        "runs_per_hour": int((len(runs) + nagg) / max(wall, 1e-3) * 3600),
         "seeds": [seed],
         "virtual_seconds_total": round(vt / 1e9, 1),
         "virtual_seconds_max": round(vmax / 1e9, 1),
@@ -511,6 +532,9 @@ def check(prop, tier):
             r, h = explore(scx, ps["prop"], tier, seed, b, NCPU if not ps.get("workers") else ps["workers"], ps.get("env"))
             r = [x for x in r if x.get("reason") != "skipped"]
             for x in r:
+                if x.get("agg"):
+                    x["runs"] -= (x.get("reasons") or {}).get("skipped", 0)
+            for x in r:
                 x["pass"] = ps.get("name", ps["prop"])
                 if ps.get("env"):
                     x["env"] = ps["env"]
@@ -528,7 +552,7 @@ def check(prop, tier):
         for f in known:
             if f["id"] in known_hits:
                 print("KNOWN-FINDING: property=%s %s (seen in %d runs)" % (prop, f["what"], known_hits[f["id"]]))
-        nruns = len([r for r in recs if r.get("reason") != "harness"])
+        nruns = sum(r.get("runs", 0) if r.get("agg") else 1 for r in recs if r.get("reason") != "harness")
         log("%s %s: %d runs in %.1fs, %d new violation classes, %d known-finding hits" % (prop, tier, nruns, wall, len(new), sum(known_hits.values())))
         if new:
             for v, path, nr in new:
